@@ -50,6 +50,9 @@ pub struct CollideCase {
     pub insert_into_cache: bool,
     /// touch the target through the stack (BALANCE) in an earlier transaction first
     pub warm_up_first: bool,
+    /// the warm-up transaction also pays the target one wei
+    #[serde(default)]
+    pub warm_pay: bool,
     pub value: U256,
     pub salt: U256,
     pub sender_nonce: u64,
@@ -161,7 +164,8 @@ impl Engine for CollideSim {
             target_state,
             kind,
             insert_into_cache: matches!(stack, StackKind::Cache | StackKind::MutRefCache) && target_state == TargetState::StorageOnly && rng.bool(),
-            warm_up_first: rng.chance(1, 3),
+            warm_up_first: rng.chance(1, 2),
+            warm_pay: rng.bool(),
             value: if rng.chance(1, 3) { U256::from(rng.range(1, 100)) } else { U256::ZERO },
             salt: U256::from(salt),
             sender_nonce: rng.below(3),
@@ -187,10 +191,18 @@ impl Engine for CollideSim {
         let mut disk = SimDisk { hash_salt: seed, ..Default::default() };
         disk.accounts.insert(sender, DiskAccount { balance: U256::from(10u64).pow(U256::from(22)), nonce: c.sender_nonce, ..Default::default() });
         disk.accounts.insert(factory, DiskAccount { balance: U256::from(1_000_000u64), nonce: c.factory_nonce, code: if c.kind == CreateKind::EofCreate { eof_factory_code(c.value, c.salt) } else { factory_code(c.kind == CreateKind::Create2, c.value, c.salt) }, ..Default::default() });
-        // toucher: BALANCE(target); EXTCODESIZE(target)
+        // toucher: BALANCE(target); EXTCODESIZE(target); with `warm_pay` it also sends the
+        // target one wei, so that the layers hold it as touched-and-changed (not merely
+        // loaded) when the create arrives. (A zero-value touch is not used: it would delete a
+        // storage-only target under EIP-161.)
+        let pays = c.warm_up_first && c.warm_pay;
         let mut t = Asm::new();
-        t.push_addr(target).op(op::BALANCE).op(op::POP).push_addr(target).op(op::EXTCODESIZE).op(op::POP).op(op::STOP);
-        disk.accounts.insert(toucher, DiskAccount { nonce: 1, code: t.bytes(), ..Default::default() });
+        t.push_addr(target).op(op::BALANCE).op(op::POP).push_addr(target).op(op::EXTCODESIZE).op(op::POP);
+        if pays {
+            t.push_u(0).push_u(0).push_u(0).push_u(0).push_u(1).push_addr(target).push_u(50_000).op(op::CALL).op(op::POP);
+        }
+        t.op(op::STOP);
+        disk.accounts.insert(toucher, DiskAccount { nonce: 1, balance: U256::from(1000u64), code: t.bytes(), ..Default::default() });
         let mut tacc = DiskAccount::default();
         let mut on_disk = true;
         match c.target_state {
@@ -327,14 +339,17 @@ impl Engine for CollideSim {
             } else {
                 // success: code deployed, old balance kept + value, new storage only
                 let now = after_target.clone().unwrap_or_default();
-                let want_bal = target_before.balance + c.value;
+                let want_bal = target_before.balance + c.value + U256::from(pays as u64);
                 if now.code != runtime || (sc && now.nonce != 1) || now.balance != want_bal || now.storage.get(&U256::from(7)) != Some(&U256::from(9)) {
                     out.push(Violation::new("C21", "C21.collision", &sig_base("bad-creation"), format!("successful creation left {now:?} (expected balance {want_bal})")));
                 }
             }
         }
         let mut h = Hasher64::new();
-        h.s(&c.cfg.spec).s(&layer).s(&key).u(c.warm_up_first as u64).u(!c.value.is_zero() as u64).u(c.cfg.lazy_code as u64);
+        if pays {
+            stats.inc("probe.target_paid_by_earlier_tx");
+        }
+        h.s(&c.cfg.spec).s(&layer).s(&key).u(c.warm_up_first as u64 + pays as u64).u(!c.value.is_zero() as u64).u(c.cfg.lazy_code as u64);
         stats.fingerprint(h.finish());
         if stats.samples.is_empty() {
             stats.samples.push(json!({"spec": c.cfg.spec, "layer": layer, "target": format!("{:?}", c.target_state), "kind": format!("{:?}", c.kind), "warm_up_first": c.warm_up_first, "expect_collision": expect_collision}));
@@ -348,6 +363,11 @@ impl Engine for CollideSim {
         if c.warm_up_first {
             let mut d = c.clone();
             d.warm_up_first = false;
+            out.push(d);
+        }
+        if c.warm_pay {
+            let mut d = c.clone();
+            d.warm_pay = false;
             out.push(d);
         }
         if !c.value.is_zero() {
